@@ -1,0 +1,14 @@
+//go:build verif
+
+package url
+
+import "net/url"
+
+// VerifIsValidAbsolutePath exposes isValidAbsolutePath (verification hook).
+func VerifIsValidAbsolutePath(redirect string) bool { return isValidAbsolutePath(redirect) }
+
+// VerifIsAllowedDomain exposes isAllowedDomain (verification hook).
+func VerifIsAllowedDomain(u *url.URL, allowed string) bool { return isAllowedDomain(u, allowed) }
+
+// VerifRedirectRegex exposes the source of the invalid-redirect regular expression (verification hook).
+func VerifRedirectRegex() string { return invalidRedirectRegex.String() }
